@@ -2,9 +2,9 @@
 package c01
 
 import (
+	"bytes"
 	"encoding/json"
 	"fmt"
-	"bytes"
 	"math"
 	"math/rand"
 	"os"
@@ -26,30 +26,30 @@ func (Driver) ID() string { return "C01" }
 
 // Line is one scenario printed by BoolOps.tla (What = "bool").
 type Line struct {
-	Hdr     bool          `json:"hdr,omitempty"`
-	S       int           `json:"S,omitempty"`
-	N       int           `json:"N,omitempty"`
-	Samples [][2]int      `json:"samples,omitempty"`
-	P       latgeo.LPath  `json:"p,omitempty"`
-	Q       latgeo.LPath  `json:"q,omitempty"`
-	Wp      []int         `json:"wp,omitempty"`
-	Wq      []int         `json:"wq,omitempty"`
-	And     []int         `json:"and,omitempty"`
-	Or      []int         `json:"or,omitempty"`
-	Xor     []int         `json:"xor,omitempty"`
-	Not     []int         `json:"not,omitempty"`
-	Div     []int         `json:"div,omitempty"`
+	Hdr     bool            `json:"hdr,omitempty"`
+	S       int             `json:"S,omitempty"`
+	N       int             `json:"N,omitempty"`
+	Samples [][2]int        `json:"samples,omitempty"`
+	P       latgeo.LPath    `json:"p,omitempty"`
+	Q       latgeo.LPath    `json:"q,omitempty"`
+	Wp      []int           `json:"wp,omitempty"`
+	Wq      []int           `json:"wq,omitempty"`
+	And     []int           `json:"and,omitempty"`
+	Or      []int           `json:"or,omitempty"`
+	Xor     []int           `json:"xor,omitempty"`
+	Not     []int           `json:"not,omitempty"`
+	Div     []int           `json:"div,omitempty"`
 	F       map[string]bool `json:"f,omitempty"`
 }
 
 // Scenario is the self-contained replay unit: one pair, one embedding (all five operations).
 type Scenario struct {
-	Kind    string       `json:"kind"`
-	S       int          `json:"S"`
-	Samples [][2]int     `json:"samples"`
-	P       latgeo.LPath `json:"p"`
-	Q       latgeo.LPath `json:"q"`
-	Emb     latgeo.Emb   `json:"emb"`
+	Kind    string           `json:"kind"`
+	S       int              `json:"S"`
+	Samples [][2]int         `json:"samples"`
+	P       latgeo.LPath     `json:"p"`
+	Q       latgeo.LPath     `json:"q"`
+	Emb     latgeo.Emb       `json:"emb"`
 	Exp     map[string][]int `json:"exp"`
 	F       map[string]bool  `json:"f"`
 	CP      latgeo.CPath     `json:"cp,omitempty"` // curved scenario (spec/CurvedOps.tla): cubic contours instead of P, Q
@@ -106,7 +106,7 @@ func (s *Scenario) tag() string {
 // float arithmetic is exact on the inputs), "~float" for every other embedding (coincidences become near-coincidences).
 func (s *Scenario) embClass() string {
 	multi := "@" + s.Space
-	if s.Emb.Name == "jitter" {
+	if strings.HasPrefix(s.Emb.Name, "jitter") {
 		return multi + "~jitter" // sub-grid near-coincidences
 	}
 	for _, e := range latgeo.Symmetries {
@@ -254,7 +254,7 @@ func cfg(n, k, nc int, mode string, num int, what string, mc bool) string {
 
 // embeddings used for a scenario index (all scenarios get the identity; others rotate through the list)
 func embsFor(i int64, thorough bool) []latgeo.Emb {
-	extra := []latgeo.Emb{latgeo.Symmetries[1], latgeo.Symmetries[4], latgeo.Symmetries[6], latgeo.Translate, latgeo.Tiny, latgeo.Huge, latgeo.Pyth, latgeo.Shear, latgeo.Symmetries[2], latgeo.Symmetries[7], latgeo.Aniso, latgeo.Jitter, latgeo.Jitter}
+	extra := []latgeo.Emb{latgeo.Symmetries[1], latgeo.Symmetries[4], latgeo.Symmetries[6], latgeo.Translate, latgeo.Tiny, latgeo.Huge, latgeo.Pyth, latgeo.Shear, latgeo.Symmetries[2], latgeo.Symmetries[7], latgeo.Aniso, latgeo.Jitter, latgeo.Jitter2}
 	out := []latgeo.Emb{latgeo.Identity, extra[int(i)%len(extra)]}
 	if thorough {
 		out = append(out, extra[int(i/7+3)%len(extra)])
@@ -581,11 +581,11 @@ func (d Driver) Run(c *core.Ctx) error {
 		r.runCurved(tlc.Opts{Module: "CurvedOps", Config: ccfg(4, 3, 60), Seed: c.Seed + 3, Timeout: 30 * time.Minute})
 		r.runCurved(tlc.Opts{Module: "CurvedOps", Config: ccfg(5, 2, 40), Seed: c.Seed + 4, Timeout: 30 * time.Minute})
 	} else {
-		r.runGen("tri", tlc.Opts{Module: "BoolOps", Config: cfg(2, 3, 1, "random", 240, "bool", false), Seed: 7777})         // a fixed 57 600-pair sample of the tri space (deterministic: known findings per input)
+		r.runGen("tri", tlc.Opts{Module: "BoolOps", Config: cfg(2, 3, 1, "random", 240, "bool", false), Seed: 7777})        // a fixed 57 600-pair sample of the tri space (deterministic: known findings per input)
 		r.runGen("pent", tlc.Opts{Module: "BoolOps", Config: cfg(4, 5, 1, "random", 130, "bool", false), Seed: c.Seed + 1}) // 16 900 pentagon pairs on 5x5
 		r.runGen("two", tlc.Opts{Module: "BoolOps", Config: cfg(3, 4, 2, "random", 40, "bool", false), Seed: c.Seed + 2})   // two contours per operand
-		r.runProg(tlc.Opts{Module: "BoolOps", Config: cfg(3, 4, 1, "random", 14, "prog", false), Seed: c.Seed + 5}) // 588 programs x 16 op pairs
-		r.runCurved(tlc.Opts{Module: "CurvedOps", Config: ccfg(4, 3, 20), Seed: c.Seed + 3})                               // 400 pairs of cubic contours
+		r.runProg(tlc.Opts{Module: "BoolOps", Config: cfg(3, 4, 1, "random", 14, "prog", false), Seed: c.Seed + 5})         // 588 programs x 16 op pairs
+		r.runCurved(tlc.Opts{Module: "CurvedOps", Config: ccfg(4, 3, 20), Seed: c.Seed + 3})                                // 400 pairs of cubic contours
 	}
 	c.Count(0, r.nontriv, 0)
 	c.SetExtra("pairs", r.n)
